@@ -2,8 +2,14 @@ package c20
 
 // QUIC/SCION variant of the scripted peer: the same histories on a Fetcher with
 // QUIC.Enabled, against a peer listening with scion.ListenQUIC on a same-AS empty
-// path (daemon address ""). Only FetchData is called (the NTP request over SCION
-// is not sent); Destination is judged on the Data returned.
+// path (daemon address ""). The Fetcher is the one inside a client.SCIONClient
+// with Auth.NTSEnabled (configured as timeservice.go configureSCIONClientNTS
+// does); a call is made either directly (FetchData) or by the NTP client
+// (client.MeasureClockOffsetSCION with the CONFIGURED remote address: key-exchange
+// host, port cfgPort; local and remote in the same ISD-AS), as the history says.
+// UDP sockets on the three hosts x {standard SCION NTP port, 4001, 4002, cfgPort}
+// record where the NTP request datagram ARRIVES (underlay next hop) and which
+// SCION destination host and UDP port it carries.
 
 import (
 	"context"
@@ -19,7 +25,14 @@ import (
 	"testing"
 	"time"
 
+	"github.com/google/gopacket"
 	"github.com/scionproto/scion/pkg/addr"
+	"github.com/scionproto/scion/pkg/slayers"
+	"github.com/scionproto/scion/pkg/snet"
+	spath "github.com/scionproto/scion/pkg/snet/path"
+
+	"example.com/scion-time/core/client"
+	"example.com/scion-time/net/ntp"
 
 	"example.com/scion-time/net/ntske"
 	"example.com/scion-time/net/scion"
@@ -29,6 +42,31 @@ import (
 )
 
 var iaQ = addr.MustParseIA("1-ff00:0:110")
+
+const (
+	stdPortSCION = ntp.ServerPortSCION // NtsKe!StdPort for Transport "quic"
+	cfgPort      = 4003                // NtsKe!CfgPort: the port of the configured remote address
+)
+
+// scionDst: destination host (model name) and UDP port of a SCION/UDP packet
+func (n *wnet) scionDst(b []byte) (string, int) {
+	var (
+		sl slayers.SCION
+		ul slayers.UDP
+	)
+	parser := gopacket.NewDecodingLayerParser(slayers.LayerTypeSCION, &sl, &ul)
+	parser.IgnoreUnsupported = true
+	decoded := make([]gopacket.LayerType, 0, 4)
+	if err := parser.DecodeLayers(b, &decoded); err != nil || len(decoded) < 2 ||
+		decoded[len(decoded)-1] != slayers.LayerTypeSCIONUDP {
+		return "?", -1
+	}
+	name, ok := n.names[net.IP(sl.RawDstAddr).String()]
+	if !ok || name == "" || sl.DstIA != iaQ {
+		name = "?"
+	}
+	return name, int(ul.DstPort)
+}
 
 type qpeer struct {
 	*peer
@@ -161,9 +199,13 @@ func readRequest2(r reader) bool {
 	return false
 }
 
-func (q *qpeer) newFetcher(w *worker) *ntske.Fetcher {
-	f := &ntske.Fetcher{Log: w.log}
-	// as timeservice.go configureSCIONClientNTS
+// newClient: a SCION NTP client with NTS, configured as timeservice.go
+// configureSCIONClientNTS does
+func (q *qpeer) newClient(w *worker) *client.SCIONClient {
+	c := &client.SCIONClient{Log: w.log}
+	c.Auth.NTSEnabled = true
+	f := &c.Auth.NTSKEFetcher
+	f.Log = w.log
 	f.TLSConfig = tls.Config{
 		NextProtos:         []string{"ntske/1"},
 		InsecureSkipVerify: true,
@@ -175,15 +217,43 @@ func (q *qpeer) newFetcher(w *worker) *ntske.Fetcher {
 	f.QUIC.DaemonAddr = ""
 	f.QUIC.LocalAddr = udp.UDPAddr{IA: iaQ, Host: &net.UDPAddr{IP: net.ParseIP(w.net.ips[0])}}
 	f.QUIC.RemoteAddr = udp.UDPAddr{IA: iaQ, Host: &net.UDPAddr{IP: net.ParseIP(w.net.ips[0]), Port: q.port}}
-	return f
+	return c
+}
+
+// measure: one client.MeasureClockOffsetSCION call (one client, not interleaved:
+// one measureClockOffsetSCION) the way timeservice.go makes it inside one AS:
+// the configured remote address and an empty path whose next hop is that
+// address. Every call gets address values of its own (the client writes through
+// remoteAddr.Host). The capture sockets answer with datagrams that are no SCION
+// packets, so the call returns at once.
+func (q *qpeer) measure(w *worker, c *client.SCIONClient) (o callObs) {
+	o = newCallObs()
+	w.logh.reset()
+	w.net.drain()
+	ctx, cancel := context.WithTimeout(context.Background(), 2*time.Second)
+	defer cancel()
+	host := func() net.IP { return net.ParseIP(w.net.ips[0]).To4() }
+	local := udp.UDPAddr{IA: iaQ, Host: &net.UDPAddr{IP: host()}}
+	remote := udp.UDPAddr{IA: iaQ, Host: &net.UDPAddr{IP: host(), Port: cfgPort}}
+	ps := []snet.Path{spath.Path{Src: iaQ, Dst: iaQ, DataplanePath: spath.Empty{}, NextHop: remote.Host}}
+	client.MeasureClockOffsetSCION(ctx, w.log, []*client.SCIONClient{c}, local, remote, ps)
+	for _, cp := range w.net.drain() {
+		if !o.dest.Sent {
+			o.dest = mdest{Sent: true, Net: "scion", Server: cp.dsrv, Port: cp.dport, Hop: mhop{cp.server, cp.port}}
+		}
+	}
+	// (a request on the wire was built from key-exchange data)
+	o.ok = o.dest.Sent || !w.logh.saw("failed to fetch key exchange data")
+	return
 }
 
 func (q *qpeer) runHistory(w *worker, ci int, h []script, seed int64) []event {
 	q.resetCase(uint64(seed), mrand.New(mrand.NewSource(seed^0x5bd1e995)))
-	f := q.newFetcher(w)
+	cl := q.newClient(w)
+	f := &cl.Auth.NTSKEFetcher
 	blank := func() event {
 		return event{Case: ci, Src: "quic", Planned: noScript, Served: noScript, Ret: zeroData, Post: zeroData,
-			Twin: mtwin{Ret: zeroData, Post: zeroData}}
+			Dest: noDest, Twin: mtwin{Ret: zeroData, Post: zeroData}}
 	}
 	r := blank()
 	r.Ev = "reset"
@@ -228,6 +298,9 @@ func (q *qpeer) runHistory(w *worker, ci int, h []script, seed int64) []event {
 				o, label, retAt, done = fetchStalled(q.peer, f)
 				post0 = f.VerifData()
 				done()
+			} else if op.Via == "measure" {
+				e.Via = "measure"
+				o = q.measure(w, cl)
 			} else {
 				o = fetchCtx(context.Background(), f)
 			}
@@ -254,20 +327,24 @@ func (q *qpeer) runHistory(w *worker, ci int, h []script, seed int64) []event {
 				arrivedLate = stalls && cr.fin.After(retAt)
 			}
 			q.mu.Unlock()
-			e.Ok, e.Panicked, e.Note = o.ok, o.panicked, o.note
+			e.Ok, e.Panicked, e.Note, e.Dest = o.ok, o.panicked, o.note, o.dest
 			lastOK = o.ok
 			if stalls {
 				e.Post = q.project(post0)
 			} else {
 				e.Post = q.project(f.VerifData())
 			}
-			if o.ok {
-				e.Ret = q.project(o.ret)
+			if e.Via == "fetch" {
+				if o.ok {
+					e.Ret = q.project(o.ret)
+				}
+			} else if o.ok {
+				e.Ret = e.Post // see runHistory in c20_test.go
 			}
 			if stalls {
 				// see runHistory in c20_test.go
 				l := e
-				l.Ev, l.Via, l.Planned, l.Served, l.Ret = "late", "", noScript, noScript, zeroData
+				l.Ev, l.Via, l.Planned, l.Served, l.Ret, l.Dest = "late", "", noScript, noScript, zeroData, noDest
 				l.Ok, l.Dialed = false, 0
 				l.Unsettled = arrivedLate && !settle(label)
 				l.Post = q.project(f.VerifData())
@@ -298,7 +375,7 @@ func TestQUIC(t *testing.T) {
 		wg.Add(1)
 		go func(i int) {
 			defer wg.Done()
-			n := allocNet(t, 100+i)
+			n := allocNetPorts(t, 100+i, []int{stdPortSCION, portA, portB, cfgPort}, true)
 			defer n.close()
 			h := &logCapture{}
 			w := &worker{t: t, net: n, logh: h, log: slog.New(h)}
@@ -310,7 +387,14 @@ func TestQUIC(t *testing.T) {
 					return
 				}
 				seed := vio.Seed()*1000003 + int64(ci)
-				hist := append(append([]script{}, cases[ci].H...), script{Op: "fetch", Alpn: "dflt", Recs: []string{}, Cut: "none"})
+				// the probe is made the way the last generated call is made
+				pv := ""
+				for _, op := range cases[ci].H {
+					if op.Op == "fetch" {
+						pv = op.Via
+					}
+				}
+				hist := append(append([]script{}, cases[ci].H...), script{Op: "fetch", Via: pv, Alpn: "dflt", Recs: []string{}, Cut: "none"})
 				evs := q.runHistory(w, ci, hist, seed)
 				evs[len(evs)-1].Probe = true
 				un := hasUn(hist)
@@ -338,6 +422,7 @@ func TestQUIC(t *testing.T) {
 	}
 	wg.Wait()
 	calls, dials, oks, stalled, early, unsettled := 0, 0, 0, 0, 0, 0
+	meas, sent := 0, 0
 	for _, evs := range res {
 		for _, e := range evs {
 			out.Emit(e)
@@ -356,11 +441,17 @@ func TestQUIC(t *testing.T) {
 				if e.Ok {
 					oks++
 				}
+				if e.Via == "measure" {
+					meas++
+				}
+				if e.Dest.Sent {
+					sent++
+				}
 			}
 		}
 	}
-	fmt.Printf("C20QUIC cases=%d calls=%d exchanges=%d ok=%d stalled=%d returned-early=%d unsettled=%d\n",
-		len(cases), calls, dials, oks, stalled, early, unsettled)
+	fmt.Printf("C20QUIC cases=%d calls=%d exchanges=%d ok=%d stalled=%d returned-early=%d unsettled=%d measure=%d captured=%d\n",
+		len(cases), calls, dials, oks, stalled, early, unsettled, meas, sent)
 	if calls == 0 {
 		t.Fatal("no call performed")
 	}
